@@ -85,6 +85,9 @@ def run_tlc(module, cfg, wd, env=None, workers=4, timeout=1800, extra=None, dfs=
         jopts += " -Dtlc2.tool.queue.IStateQueue=StateDeque"
     if xmx:
         jopts += " -Xmx" + xmx
+    jtmp = os.path.join(wd, "jtmp_" + (out_name or module))
+    os.makedirs(jtmp, exist_ok=True)
+    jopts += " -Djava.io.tmpdir=" + jtmp       # TLC unpacks its standard modules there
     e["JAVA_TOOL_OPTIONS"] = jopts
     if env:
         e.update(env)
@@ -106,6 +109,7 @@ def run_tlc(module, cfg, wd, env=None, workers=4, timeout=1800, extra=None, dfs=
     res.rc = r.returncode
     res.out = outp
     shutil.rmtree(meta, ignore_errors=True)
+    shutil.rmtree(jtmp, ignore_errors=True)
     summary_re = re.compile(r"^(\d+) states generated, (\d+) distinct states found")
     depth_re = re.compile(r"depth of the complete state graph search is (\d+)")
     with open(outp, errors="replace") as f:
@@ -406,3 +410,60 @@ def tlc_validate_sharded(chk, module, cfg, recs, name, shards=6, timeout=3000, e
             bad.append((lo + b["idx"] - 1, b))
     chk.cov["traces_validated_against_impl"] += n
     return bad
+
+
+def front_end_verdicts(chk, snippets, prelude, name, per=200, mod_dir="", timeout_ms=60000):
+    """Type-check many snippets (each one or more whole lines of top-level Capy) in batches and
+    attribute every error diagnostic to the snippet whose lines contain its start.
+    Returns a list of dicts {accepted, kinds, crash} per snippet (crash = the front end died on
+    the batch; the batch is then split to isolate it)."""
+    out = [None] * len(snippets)
+    todo = [list(range(i, min(i + per, len(snippets)))) for i in range(0, len(snippets), per)]
+    rnd = 0
+    pre_lines = prelude.rstrip("\n").split("\n")
+    while todo:
+        jobs, layouts = [], []
+        for bi, idxs in enumerate(todo):
+            lines = list(pre_lines)
+            where = []
+            for i in idxs:
+                sl = snippets[i].rstrip("\n").split("\n")
+                where.append((len(lines) + 1, len(lines) + len(sl), i))
+                lines += sl
+            lines.append("main :: () {}")
+            jobs.append({"id": "fe%d" % bi, "files": {"main.capy": "\n".join(lines) + "\n"},
+                         "stop_after": "infer", "timeout_ms": timeout_ms, "mod_dir": mod_dir})
+            layouts.append(where)
+        res = run_batch(jobs, chk.wd, "%s_fe%d" % (name, rnd))
+        nxt = []
+        for idxs, where, r in zip(todo, layouts, res):
+            if r.get("panic") or r.get("crash"):
+                if len(idxs) == 1:
+                    out[idxs[0]] = {"accepted": False, "kinds": [], "crash": r.get("panic") or r.get("crash")}
+                else:
+                    h = max(1, len(idxs) // 4)
+                    nxt += [idxs[j:j + h] for j in range(0, len(idxs), h)]
+                continue
+            per_snip = {i: [] for i in idxs}
+            stray = []
+            for d in r["diags"]:
+                if d["sev"] != "error":
+                    continue
+                try:
+                    line = int(d["header"].split(":")[0])
+                except ValueError:
+                    stray.append(d["kind"])
+                    continue
+                for lo, hi, i in where:
+                    if lo <= line <= hi:
+                        per_snip[i].append(d["kind"])
+                        break
+                else:
+                    stray.append("%s@%d" % (d["kind"], line))
+            if stray:
+                raise ToolError("diagnostics outside the tested snippets: %s" % stray[:5])
+            for i in idxs:
+                out[i] = {"accepted": not per_snip[i], "kinds": per_snip[i], "crash": None}
+        todo = nxt
+        rnd += 1
+    return out
